@@ -209,6 +209,7 @@ class Interp:
     def __init__(self, ctx, stubs=None, loop_specs=None, inline_filter=None, force=()):
         self.ctx = ctx
         self.force = set(force)  # repo functions interpreted even with concrete arguments (their callees are stubbed)
+        self.force_all = False  # conformance mode: interpret every repo function, also with concrete arguments
         self.stubs = stubs or {}
         self.loop_specs = loop_specs or {}
         from . import models
@@ -372,7 +373,7 @@ class Interp:
                 return self.native(fn, args, kwargs)
             if is_repo_function(fn) and not is_generated_dataclass_method(fn):
                 is_gen = bool(fn.__code__.co_flags & inspect.CO_GENERATOR)
-                if is_gen or symbolic_args or fn in self.force:
+                if is_gen or symbolic_args or fn in self.force or self.force_all:
                     return (yield from self.call_repo_function(fn, args, kwargs, self._defcls_of(fn, args)))
                 return self.native(fn, args, kwargs)
             if is_generated_dataclass_method(fn):
